@@ -265,6 +265,13 @@ def guarded_check(prop, case, ctx):
     """Run prop.check; an exception that escapes from the code under test on an input the
     property covers is a finding, an exception of the harness itself is a HarnessError."""
     ctx.begin(case)
+    k_off = getattr(prop, "SWITCH_OFF", 0)
+    if k_off and case_hash(case) % k_off == 0:
+        # one case in k runs with the package-wide input-check switch OFF: for the valid inputs these checks use, every
+        # result must be the same as with the switch on (an application may run with checks disabled, or under python -O)
+        import xfab
+        xfab.CHECKS._run_checks = False
+        ctx.event("input-checks-switched-off")
     try:
         prop.check(case, ctx)
         ctx.verify_kept()
